@@ -7,6 +7,7 @@ import (
 	"regexp"
 	"sort"
 	"strings"
+	"sync"
 )
 
 // C27 (run-time half): for every well-typed program supplied by the specification, run
@@ -108,6 +109,9 @@ func Variants(c *Case, tokenMutations bool) []Variant {
 			out = append(out, Variant{Label: "extraneous-var", Script: rd.Script, Vars: withVar(rd.Vars, "zzz", "1")})
 			out = append(out, Variant{Label: "nil-vars", Script: rd.Script, Vars: nil})
 		}
+		for i, v := range printVariants(rd.Script) {
+			out = append(out, Variant{Label: fmt.Sprintf("print-%d/%s", i, mode), Script: v, Vars: rd.Vars})
+		}
 		if tokenMutations {
 			tokens, seps := tokenise(rd.Script)
 			for i := range tokens {
@@ -119,7 +123,69 @@ func Variants(c *Case, tokenMutations bool) []Variant {
 	return out
 }
 
+// printExprs: what a script may `print` (machine grammar: PRINT expression): a number, a monetary,
+// an account, an asset, a string, a portion, arithmetic expressions.
+var printExprs = []string{"42", "[COIN 5]", "@a", "1 + 2", "[COIN 1] + [COIN 2]", "COIN", "\"x\"", "1/2", "7 - 9"}
+
+// printVariants inserts `print <expr>` statements into a rendered script: before the first
+// statement, after the last one, and between statements (so: before and after a send, and in
+// scripts whose send then fails). `print` only exists in the machine runtime; production runs it
+// through MachineNumscriptRuntimeAdapter, which never installs a printer of its own.
+func printVariants(script string) []string {
+	head, body := "", script
+	if strings.HasPrefix(script, "vars {") {
+		if i := strings.Index(script, "}\n"); i >= 0 {
+			head, body = script[:i+2], script[i+2:]
+		}
+	}
+	// statement boundaries of the body: lines starting in column 0 with a statement keyword
+	lines := strings.SplitAfter(body, "\n")
+	var starts []int
+	for i, l := range lines {
+		if strings.HasPrefix(l, "send ") || strings.HasPrefix(l, "save ") || strings.HasPrefix(l, "set_") {
+			starts = append(starts, i)
+		}
+	}
+	insert := func(at int, stmt string) string {
+		var b strings.Builder
+		b.WriteString(head)
+		for i, l := range lines {
+			if i == at {
+				b.WriteString(stmt + "\n")
+			}
+			b.WriteString(l)
+		}
+		if at >= len(lines) {
+			b.WriteString(stmt + "\n")
+		}
+		return b.String()
+	}
+	var out []string
+	n := 0
+	pick := func() string { e := printExprs[n%len(printExprs)]; n++; return "print " + e }
+	if len(starts) == 0 {
+		return nil
+	}
+	out = append(out, insert(starts[0], pick()))   // before the first statement
+	out = append(out, insert(len(lines), pick()))  // after the last statement
+	out = append(out, insert(starts[0], pick()))   // another kind of value first
+	if len(starts) > 1 {
+		out = append(out, insert(starts[1], pick())) // between two statements
+	}
+	out = append(out, insert(len(lines), pick()+"\n"+pick())) // two prints in a row at the end
+	// every expression kind once, ahead of everything
+	all := make([]string, len(printExprs))
+	for i, e := range printExprs {
+		all[i] = "print " + e
+	}
+	out = append(out, insert(starts[0], strings.Join(all, "\n")))
+	return out
+}
+
 type RobustOutcome struct {
+	Skipped       int // variants not executed because their class kept hanging
+	PrintRuns     int
+	PrintExecuted int // print variants that compiled, i.e. executed OP_PRINT or failed at run time
 	Evaluations   int
 	Disagreements []RobustFinding
 	// per variant: hash -> reached run time on the machine (compiled)
@@ -137,7 +203,7 @@ func checkRobust(r Result) (string, string) {
 	case r.Panic != "":
 		return "robust/panic/" + r.Runtime, firstLines(r.Panic, 24)
 	case r.Hang:
-		return "robust/hang/" + r.Runtime, fmt.Sprintf("no result within %s", ExecTimeout)
+		return "robust/hang/" + r.Runtime, fmt.Sprintf("no result within 3 x %s (timeout + grace period); the execution was abandoned", ExecTimeout)
 	case r.Partial:
 		return "robust/partial-result/" + r.Runtime, fmt.Sprintf("error %q returned together with a result %s", r.Err, PostingsString(r.Posts))
 	}
@@ -145,9 +211,68 @@ func checkRobust(r Result) (string, string) {
 }
 
 // RunRobust executes the variants of one case. seen de-duplicates inputs across cases (by hash).
-func RunRobust(c *Case, tokenMutations bool, withInterp bool, seen func(string) bool) RobustOutcome {
+// HangBreaker stops executing a class of variants once it has hung a few times: every hang costs
+// 3 x ExecTimeout and leaves a goroutine behind, and a defect such as "print blocks forever" hangs
+// on every input of its class. The hangs already seen are reported; the check terminates.
+type HangBreaker struct {
+	mu    sync.Mutex
+	hangs map[string]int
+	Limit int
+}
+
+func NewHangBreaker(limit int) *HangBreaker { return &HangBreaker{hangs: map[string]int{}, Limit: limit} }
+
+func variantClass(label string) string {
+	if i := strings.Index(label, "/"); i > 0 {
+		label = label[:i]
+	}
+	if i := strings.Index(label, "-"); i > 0 && strings.HasPrefix(label, "print") {
+		label = label[:i]
+	}
+	return label
+}
+
+func (b *HangBreaker) tripped(class string) bool {
+	if b == nil {
+		return false
+	}
+	b.mu.Lock()
+	defer b.mu.Unlock()
+	return b.hangs[class] >= b.Limit
+}
+
+func (b *HangBreaker) record(class string) {
+	if b == nil {
+		return
+	}
+	b.mu.Lock()
+	b.hangs[class]++
+	b.mu.Unlock()
+}
+
+func (b *HangBreaker) Skipped() map[string]int {
+	out := map[string]int{}
+	if b == nil {
+		return out
+	}
+	b.mu.Lock()
+	defer b.mu.Unlock()
+	for k, v := range b.hangs {
+		if v >= b.Limit {
+			out[k] = v
+		}
+	}
+	return out
+}
+
+func RunRobust(c *Case, tokenMutations bool, withInterp bool, seen func(string) bool, breaker *HangBreaker) RobustOutcome {
 	out := RobustOutcome{Hashes: map[string]bool{}}
 	for _, v := range Variants(c, tokenMutations) {
+		class := variantClass(v.Label)
+		if breaker.tripped(class) {
+			out.Skipped++
+			continue
+		}
 		h := v.Hash()
 		if seen != nil && seen(h) {
 			continue
@@ -164,8 +289,18 @@ func RunRobust(c *Case, tokenMutations bool, withInterp bool, seen func(string) 
 		}
 		out.Evaluations++
 		out.Hashes[h] = m.Class != "compile"
+		if m.Hang {
+			breaker.record(class)
+		}
 		if k, d := checkRobust(m); k != "" {
 			out.Disagreements = append(out.Disagreements, RobustFinding{Kind: k, Detail: d, Variant: v})
+		}
+		if class == "print" {
+			out.PrintRuns++
+			if m.Class != "compile" {
+				out.PrintExecuted++
+			}
+			continue // `print` is not part of the interpreter's language
 		}
 		if inject == "partial" {
 			out.Disagreements = append(out.Disagreements, RobustFinding{Kind: "robust/partial-result/injected", Detail: "injected", Variant: v})
@@ -173,6 +308,9 @@ func RunRobust(c *Case, tokenMutations bool, withInterp bool, seen func(string) 
 		if withInterp {
 			in := RunInterpreter(v.Script, v.Vars, c.Bal, v.Store)
 			out.Evaluations++
+			if in.Hang {
+				breaker.record(class + "/interpreter")
+			}
 			if k, d := checkRobust(in); k != "" {
 				out.Disagreements = append(out.Disagreements, RobustFinding{Kind: k, Detail: d, Variant: v})
 			}
@@ -195,6 +333,9 @@ func RobustSignature(f RobustFinding) string {
 	if strings.HasPrefix(label, "ill-typed/") {
 		parts := strings.Split(label, "/")
 		class = parts[0] + "/" + parts[1]
+	}
+	if strings.HasPrefix(label, "print-") {
+		class = "print"
 	}
 	if strings.HasPrefix(label, "store-") {
 		class = "missing-balance"
